@@ -61,16 +61,25 @@ def repo_fingerprint():
     return h.hexdigest()[:16]
 
 
+# build products that depend on the tree under test are kept apart per tree, so that checks against different
+# trees (VERIF_REPO) can run side by side
+REPO_KEY = "" if REPO == "/repo" else "-" + hashlib.sha256(REPO.encode()).hexdigest()[:8]
+
+
+def harness_modfile():
+    return os.path.join(BUILD, "harness%s.mod" % REPO_KEY)
+
+
 def build_harness(tags="verif", race=False):
     """go build the harness against REPO's working tree; returns the binary path"""
     with Lock("gobuild"):
         os.makedirs(BUILD, exist_ok=True)
-        modfile = os.path.join(BUILD, "harness.mod")
+        modfile = harness_modfile()
         src = open(os.path.join(VERIF, "harness", "go.mod")).read()
         src = src.replace("=> /repo", "=> " + REPO)
         with open(modfile, "w") as f:
             f.write(src)
-        out = os.path.join(BUILD, "harness-race" if race else "harness")
+        out = os.path.join(BUILD, ("harness-race" if race else "harness") + REPO_KEY)
         cmd = ["go", "build", "-modfile=" + modfile, "-tags", tags, "-o", out]
         if race:
             cmd.insert(2, "-race")
